@@ -6,7 +6,9 @@ require github.com/jotaen/klog v0.0.0
 
 require (
 	cloud.google.com/go v0.118.2 // indirect
+	github.com/jotaen/genie v0.0.1 // indirect
 	github.com/jotaen/safemath v0.0.1 // indirect
+	github.com/kballard/go-shellquote v0.0.0-20180428030007-95032a82bc51 // indirect
 )
 
 replace github.com/jotaen/klog => /repo
